@@ -123,6 +123,42 @@ def runInterp (j : Json) : P Json := do
   let out ← go { charts := charts.toArray, fuel := fuel } #[] ops
   return Json.mkObj [("obs", .arr out)]
 
+/-! ## edit cases -/
+
+def ofEditErr : Except EditErr Unit → Json
+  | .ok _ => .null
+  | .error .statechart => .str "StatechartError"
+  | .error .value => .str "ValueError"
+
+def editOp (c : Chart) (op : Json) : P (Except EditErr Unit × Chart) := do
+  match (← arr op) with
+  | [.str "add_state", s, p] => return c.addState (← stateDef s) (← optStr p)
+  | [.str "remove_state", n] => return c.removeState (← n.getStr?)
+  | [.str "rename_state", a, b] => return c.renameState (← a.getStr?) (← b.getStr?)
+  | [.str "move_state", a, b] => return c.moveState (← a.getStr?) (← b.getStr?)
+  | [.str "add_transition", t] => return c.addTransition (← trans t)
+  | [.str "remove_transition", t] => return c.removeTransition (← trans t)
+  | [.str "rotate_transition", i, src, tgt] =>
+    let i ← if i.isNull then pure none else some <$> i.getNat?
+    let src ← optStr src
+    let tgt : Option (Option Name) ← match tgt with
+      | .str "<keep>" => pure none
+      | .null => pure (some none)
+      | t => do pure (some (some (← t.getStr?)))
+    return c.rotateTransition i src tgt
+  | [.str "validate"] => return (if c.validate then .ok () else .error .statechart, c)
+  | _ => throw s!"bad edit op {op.compress}"
+
+def runEdit (j : Json) : P Json := do
+  let c ← chart (← fld j "chart")
+  let ops ← arr (← fld j "ops")
+  let rec go (c : Chart) (acc : Array Json) : List Json → P (Array Json)
+    | [] => pure acc
+    | op :: rest => do
+      let (r, c') ← editOp c op
+      go c' (acc.push (Json.mkObj [("err", ofEditErr r), ("chart", ofChartSnap c')])) rest
+  return Json.mkObj [("obs", .arr (← go c #[] ops))]
+
 /-! ## clock cases (over `Rat`) -/
 
 def rat (j : Json) : P Rat :=
@@ -163,11 +199,19 @@ def runClock (j : Json) : P Json := do
       go c' (acc.push oj) rest
   return Json.mkObj [("outs", .arr (go (SimClock.init r0) #[] ops))]
 
-def run (j : Json) : P Json := do
+def run1 (j : Json) : P Json := do
   match (← (← fld j "kind").getStr?) with
   | "interp" => runInterp j
   | "clock" => runClock j
+  | "edit" => runEdit j
   | "ping" => return Json.mkObj [("pong", .bool true)]
   | k => throw s!"unknown case kind {k}"
+
+def run (j : Json) : P Json := do
+  match (← (← fld j "kind").getStr?) with
+  | "multi" =>
+    let rs ← (← arr (← fld j "cases")).mapM run1
+    return Json.mkObj [("multi", .arr rs.toArray)]
+  | _ => run1 j
 
 end Sismic.Cases
